@@ -129,7 +129,7 @@ def _text_inputs(ctx):
 
 
 def _register_forms(meth):
-    @contract(f"JSONPath.{meth}[text|file]=={meth}[parsed]", ("C11",), [PA + meth, "jsonpath._data:load_data"], replay=("document_forms_replay", [meth], "document_forms_candidates"))
+    @contract(f"JSONPath.{meth}[text|file]=={meth}[parsed]", ("C11", "C08"), [PA + meth, "jsonpath._data:load_data"], replay=("document_forms_replay", [meth], "document_forms_candidates"))
     def _c(ctx, meth=meth):
         mk, text, parsed, fc, as_file = _text_inputs(ctx)
 
